@@ -238,6 +238,6 @@ MANIFEST = dict(
          'bound was skipped), and a per-savepoint snapshot model is compared after every step; the directed family from the '
          'property text reaches the 7-step shapes that the general bound does not.  TmpStore is additionally executed with '
          'symbolic payload bytes.',
-    note='object values concrete (no data generalisation across the pickle boundary); program length bounded; blobs in C13.',
+    note='object values concrete (no data generalisation across the pickle boundary); program length bounded; blob savepoint data via the two C13 harnesses registered here (real scratch directory).',
     design_ref='DESIGN.md section 4, C12',
 )
